@@ -110,11 +110,20 @@ def gen_read(rng, ads, prefix):
             read = mutate(rng, read, 1, "ACGT", True)
     else:
         read = a.sequence
-    if rng.random() < 0.1:
-        read = read.lower()
-    if rng.random() < 0.08 and read:
+    if rng.random() < 0.15:
+        # lower / mixed case (the index must treat reads case-insensitively like the one-by-one search)
+        read = read.lower() if rng.random() < 0.5 else "".join(c.lower() if rng.random() < 0.3 else c for c in read)
+    r = rng.random()
+    if r < 0.08 and read:
         p = rng.randrange(len(read))
         read = read[:p] + "N" + read[p + 1:]
+    elif r < 0.2 and read:
+        # one to three N, preferably where the read has an A (the index looks N-containing affixes up with N->A)
+        cand = [j for j, c in enumerate(read) if c in "Aa"] or list(range(len(read)))
+        rl = list(read)
+        for j in rng.sample(cand, min(len(cand), rng.randint(1, 3))):
+            rl[j] = "N"
+        read = "".join(rl)
     return read
 
 
